@@ -142,14 +142,25 @@ func (rm *RegistrationManager) ingestRegistration(reg *DecoyRegistration) {
 		return
 	}
 
-	if rm.RegistrationExists(reg) {
+	// Check whether the registration is tracked already and track it if not in ONE step. With a
+	// separate check and track, two workers handling registrations with the same identifier could
+	// both pass the check; the second one would then go on to validate and announce the object
+	// that the FIRST worker tracked - whose covert address may not have been checked yet or may
+	// have been rejected.
+	exists, err := rm.TrackRegIfNotExists(reg)
+	if err != nil {
+		logger.Errorln("error tracking registration: ", err)
+		Stat().AddErrReg()
+		rm.AddErrReg()
+	}
+	if exists {
 		// log phantom IP, shared secret, ipv6 support
 		logger.Debugf("Duplicate registration: %v %s\n", reg.IDString(), reg.RegistrationSource)
 		Stat().AddDupReg()
 		rm.AddDupReg()
 
-		// Track the received registration, if it is already tracked
-		// it will just update the record
+		// Track the received registration, it is already tracked so
+		// this will just update the record
 		err := rm.TrackRegistration(reg)
 		if err != nil {
 			logger.Errorln("error tracking registration: ", err)
@@ -161,14 +172,6 @@ func (rm *RegistrationManager) ingestRegistration(reg *DecoyRegistration) {
 
 	// log phantom IP, shared secret, ipv6 support
 	logger.Debugf("New registration: %s %v\n", reg.IDString(), reg.String())
-
-	// Track the received registration
-	err := rm.TrackRegistration(reg)
-	if err != nil {
-		logger.Errorln("error tracking registration: ", err)
-		Stat().AddErrReg()
-		rm.AddErrReg()
-	}
 
 	// If registration is trying to connect to a covert address that
 	// is blocklisted consider registration INVALID and continue
